@@ -21,6 +21,7 @@ This file restates the theorems the property rests on (full statements; proofs a
 Generated once by harness/mkprops.py from harness/props_table.py + PGProperties/extra/C20.lean.in; committed as source.
 -/
 import PGProofs.ValidateThm
+import PGProofs.ApiThm
 
 set_option linter.all false
 set_option pp.fieldNotation.generalized false
@@ -55,6 +56,18 @@ theorem boundary_query : Validate.validate { query := Validate.Query.cdf [0, 1] 
 /-- order-0 accumulation returns before any check (documented) -/
 theorem order0_escapes : Validate.validate { query := Validate.Query.accumulate 0 0 [-1] } = Except.ok () ∧ Validate.validate { loci := 2, model := Validate.ModelKind.beta, query := Validate.Query.accumulate 0 0 [1] } = Except.ok () ∧ Validate.validate { loci := 2, model := Validate.ModelKind.beta, query := Validate.Query.moment 0 0 (some 1) } = Except.ok () ∧ Validate.validate { loci := 2, model := Validate.ModelKind.beta, query := Validate.Query.moment 0 0 none } = Except.error Validate.Err.notImplemented ∧ Validate.validate { loci := 2, model := Validate.ModelKind.beta, endTime := some 1, query := Validate.Query.moment 0 0 none } = Except.ok () := @PG.Validate.order0_escapes
 
+/-- CALL LAYER: a reward tuple whose length differs from the order is rejected by accumulate and moment for EVERY k (incl. 0 and negative), times, centring and permutation flag -/
+theorem call_length_mismatch : ∀ {ρ : Type} (v : Api.Variant), v ≠ Api.Variant.noLengthCheck → ∀ (ctx : Api.DistCtx ρ) (k : ℤ) (rs : List ρ), ↑(List.length rs) ≠ k → (∀ (ts : List ℚ) (center permute : Bool), Api.accumulateCall v ctx k (some rs) ts center permute = Except.error Api.ApiErr.valueError) ∧ ∀ (startTime endTime : Option ℚ) (center permute : Bool), Api.momentCall v ctx { k := k, rewards := some rs, startTime := startTime, endTime := endTime, center := center, permute := permute } = Except.error Api.ApiErr.valueError := @PG.Api.api_length_mismatch_rejected
+
+/-- a negative order is rejected whatever the rewards -/
+theorem call_negative_order : ∀ {ρ : Type} (v : Api.Variant) (ctx : Api.DistCtx ρ), ∀ k < 0, ∀ (rewards : Option (List ρ)), (∀ (ts : List ℚ) (center permute : Bool), Api.accumulateCall v ctx k rewards ts center permute = Except.error Api.ApiErr.valueError) ∧ ∀ (startTime endTime : Option ℚ) (center permute : Bool), Api.momentCall v ctx { k := k, rewards := rewards, startTime := startTime, endTime := endTime, center := center, permute := permute } = Except.error Api.ApiErr.valueError := @PG.Api.api_negative_order_rejected
+
+/-- documented exception: order 0 with no rewards returns ones before any time check -/
+theorem call_order0 : ∀ {ρ : Type} (v : Api.Variant) (ctx : Api.DistCtx ρ) (rewards : Option (List ρ)), rewards = none ∨ rewards = some [] → ∀ (ts : List ℚ) (center permute : Bool), Api.accumulateCall v ctx 0 rewards ts center permute = Except.ok (List.map (fun x ↦ 1) ts) := @PG.Api.api_order0
+
+/-- kernel-checked: without the check in accumulate a longer tuple silently uses its prefix (the check in _accumulate is not equivalent) -/
+theorem call_no_length_check_defect : Api.accumulateCall Api.Variant.noLengthCheck Api.ctxEx 2 (some [1, 2, 3]) [1 / 2, 2] true true = Except.ok [15 / 2, 120] ∧ Api.accumulateCall Api.Variant.noLengthCheck Api.ctxEx 2 (some [1, 2]) [1 / 2, 2] true true = Except.ok [15 / 2, 120] ∧ Api.accumulateCall Api.Variant.current Api.ctxEx 2 (some [1, 2, 3]) [1 / 2, 2] true true = Except.error Api.ApiErr.valueError ∧ Api.accumulateCall Api.Variant.noLengthCheck Api.ctxEx 0 (some [1]) [1 / 2, -2] true true = Except.ok [1, 1] ∧ Api.accumulateCall Api.Variant.current Api.ctxEx 0 (some [1]) [1 / 2, -2] true true = Except.error Api.ApiErr.valueError ∧ Api.accumulateCall Api.Variant.noLengthCheck Api.ctxEx 3 (some [1, 2]) [1 / 2] true true = Except.error Api.ApiErr.indexError ∧ Api.momentCall Api.Variant.noLengthCheck Api.ctxEx { k := 2, rewards := some [1, 2, 3], startTime := some 0, endTime := some 2 } = Except.ok 120 ∧ Api.momentCall Api.Variant.current Api.ctxEx { k := 2, rewards := some [1, 2, 3], startTime := some 0, endTime := some 2 } = Except.error Api.ApiErr.valueError := @PG.Api.api_centred_reads_prefix_noLengthCheck_counterexample
+
 end PG.C20
 
 #print axioms PG.C20.complete
@@ -66,3 +79,7 @@ end PG.C20
 #print axioms PG.C20.boundary_times
 #print axioms PG.C20.boundary_query
 #print axioms PG.C20.order0_escapes
+#print axioms PG.C20.call_length_mismatch
+#print axioms PG.C20.call_negative_order
+#print axioms PG.C20.call_order0
+#print axioms PG.C20.call_no_length_check_defect
